@@ -3,6 +3,8 @@ package world
 import (
 	"bytes"
 	"crypto/sha256"
+	"encoding/hex"
+	"encoding/json"
 	"fmt"
 	"math"
 	"time"
@@ -326,6 +328,35 @@ func init() {
 			}
 			w.stats.Inc("probe.P2-leaf-encodings")
 		}
+		// a satisfied policy as JSON: a preimage cut short is not the preimage
+		{
+			var pre [32]byte
+			copy(pre[:], sim.HashBytes("c14-pre", uint64(t.Choose(1<<16)), 0, 32))
+			for i := 32 - t.Range(1, 6); i < 32; i++ {
+				pre[i] = 0 // (ends in zero bytes: padding a shortened copy would restore it)
+			}
+			sp := types.SatisfiedPolicy{Policy: types.PolicyHash(sha256.Sum256(pre[:])), Preimages: [][32]byte{pre}}
+			js, err := json.Marshal(sp)
+			hexPre := []byte(hex.EncodeToString(pre[:]))
+			if err != nil || !bytes.Contains(js, hexPre) {
+				w.violate("C20", "json-marshal", fmt.Sprintf("satisfied policy %v: JSON %s (%v) does not carry the preimage in hex", sp.Policy, js, err))
+				return
+			}
+			var same types.SatisfiedPolicy
+			if err := json.Unmarshal(js, &same); err != nil || !bytes.Equal(encAny(same), encAny(sp)) {
+				w.violate("C20", "json-roundtrip-differs", fmt.Sprintf("satisfied policy does not parse back from its own JSON: %v", err))
+				return
+			}
+			for _, cut := range []int{2, 4, 2 * t.Range(1, 31), 64} {
+				short := bytes.Replace(js, hexPre, hexPre[:64-cut], 1)
+				var got types.SatisfiedPolicy
+				if err := json.Unmarshal(short, &got); err == nil {
+					w.violate(w.propAmong("C14", "C20"), "short-preimage-accepted", fmt.Sprintf("a satisfied policy whose preimage is given with %d of its 64 hex characters was parsed without error (preimages %x)", 64-cut, got.Preimages))
+					return
+				}
+			}
+			w.stats.Inc("probe.P2-preimage-json")
+		}
 		// lock times between two seconds: "after T" means after T, wherever the median falls
 		{
 			for _, d := range []time.Duration{-time.Nanosecond, 0, time.Nanosecond, 250 * time.Millisecond, 500 * time.Millisecond, 999999999 * time.Nanosecond, -500 * time.Millisecond} {
@@ -390,8 +421,13 @@ func init() {
 		{
 			var pk types.PublicKey
 			copy(pk[:], sim.HashBytes("c14-std", uint64(t.Choose(1<<16)), 0, 32))
-			if t.Chance(1, 4) {
+			switch t.Choose(6) {
+			case 0:
 				pk = c.keys[0].PublicKey()
+			case 1:
+				pk = types.PublicKey{} // no key at all is a key like any other as far as the address goes
+			case 2:
+				pk = types.PublicKey{31: 1}
 			}
 			std := types.StandardUnlockConditions(pk)
 			if a, b := types.StandardUnlockHash(pk), ref.UnlockHash(std); a != b {
